@@ -39,7 +39,12 @@ The driver reports for every generated version pair whether it satisfies these h
   (vectors / arrays / maps: rejected — the open finding of this property, as a theorem of the model);
   `union_case_added_or_removed` (warning, both ways); `adding_a_field` / `removing_a_field` of a record a
   step uses (silent when the field is nullable, warning otherwise; for records whose fields mention no
-  other definition, so that the verdict does not depend on the rest of the two versions).
+  other definition, so that the verdict does not depend on the rest of the two versions); `reordering_fields`
+  (any permutation: silent); `inserting_a_step` (anywhere); `moving_a_step_is_rejected`;
+  `changing_an_enum_definition` (base, enum/flags, removed or renumbered symbol: rejected) and
+  `adding_enum_symbols_is_silent`; `scalar_to_vector_or_array` (rejected, both ways); `changing_type_arguments`
+  (count or value: rejected); `optional_and_union` (warning, both ways); `reordering_union_cases` (any permutation:
+  no message).
 -/
 
 namespace Yardl.C06
@@ -127,6 +132,69 @@ theorem removing_a_field (r : Nat) (fs : List (Nat × ETy)) (n : Nat) (t : ETy)
       (.record r (fieldsOfList fs)) (.record r (fieldsOfList (fs ++ [(n, t)])))
     = if isNullable t then .ok else .warn :=
   field_removed_verdict r fs n t hd hfresh hw hdf htd
+
+theorem reordering_fields (r : Nat) (new old : List (Nat × ETy)) (hp : new.Perm old)
+    (hd : namesDistinct old = true) (hw : ∀ e ∈ old, wfT e.2 = true) (hdf : ∀ e ∈ old, defFree e.2 = true) :
+    stepVerdict [(r, .record r (fieldsOfList new))] (.record r (fieldsOfList new)) (.record r (fieldsOfList old)) = .ok :=
+  fields_reordered_verdict r new old hp hd hw hdf
+
+theorem inserting_a_step (env : Env) (pre suf : List EStep) (s : EStep) (hw : wfSteps (pre ++ suf) = true)
+    (hfresh : ∀ x ∈ pre ++ suf, x.name ≠ s.name) :
+    protoVerdict env (pre ++ s :: suf) (pre ++ suf) = if canBeEmpty s then .ok else .err := by
+  simp only [wfSteps, Bool.and_eq_true, List.all_eq_true] at hw
+  exact inserted_step_verdict env pre suf s hw.1 hw.2 hfresh
+
+theorem moving_a_step_is_rejected (env : Env) (pre tail rest : List EStep) (s o : EStep) (i : Nat)
+    (hw : wfSteps (pre ++ tail) = true) (hfound : findStep (pre ++ tail) s.name = some (i, o)) (hmoved : i ≠ pre.length) :
+    protoVerdict env (pre ++ s :: rest) (pre ++ tail) = .err := by
+  simp only [wfSteps, Bool.and_eq_true, List.all_eq_true] at hw
+  exact moved_step_is_rejected env pre tail rest s o i hw.1 hw.2 hfound hmoved
+
+theorem changing_an_enum_definition (newFlags oldFlags : Bool) (newBase oldBase : Prim) (newSyms oldSyms : List (Nat × Int)) :
+    (newFlags ≠ oldFlags → enumSev newFlags newBase newSyms oldFlags oldBase oldSyms = .err) ∧
+    (newBase ≠ oldBase → enumSev newFlags newBase newSyms oldFlags oldBase oldSyms = .err) ∧
+    (∀ e ∈ oldSyms, lookupSym newSyms e.1 = none → enumSev newFlags newBase newSyms oldFlags oldBase oldSyms = .err) ∧
+    (∀ e ∈ oldSyms, ∀ v, lookupSym newSyms e.1 = some v → v ≠ e.2 → enumSev newFlags newBase newSyms oldFlags oldBase oldSyms = .err) :=
+  enum_definition_change newFlags oldFlags newBase oldBase newSyms oldSyms
+
+theorem adding_enum_symbols_is_silent (fl : Bool) (base : Prim) (newSyms oldSyms : List (Nat × Int))
+    (hkept : ∀ e ∈ oldSyms, lookupSym newSyms e.1 = some e.2) : enumSev fl base newSyms fl base oldSyms = .ok :=
+  enum_symbols_added_is_silent fl base newSyms oldSyms hkept
+
+theorem scalar_to_vector_or_array (fuel : Nat) (t : ETy) (hs : plainScalar t = true) (l : Option Nat) (k : ArrKind) :
+    cmp (fuel + 1) (.vector t l) t = .error ∧ cmp (fuel + 1) t (.vector t l) = .error ∧
+    cmp (fuel + 1) (.array t k) t = .error ∧ cmp (fuel + 1) t (.array t k) = .error :=
+  scalar_to_vector_or_array_rejected fuel t hs l k
+
+theorem changing_type_arguments (fuel : Nat) (n : Nat) :
+    (∀ (as as' b b' : EFields), as.toList.length ≠ as'.toList.length → cmp (fuel + 1) (.inst n as b) (.inst n as' b') = .error) ∧
+    (∀ (a a' : ETy) (b b' : EFields), (cmp fuel a a').matches = false →
+      cmp (fuel + 1) (.inst n (.cons 0 a .nil) b) (.inst n (.cons 0 a' .nil) b') = .error) :=
+  ⟨fun as as' b b' h => type_argument_count_change_rejected fuel n as as' b b' h,
+   fun a a' b b' h => type_argument_change_rejected fuel n a a' b b' h⟩
+
+theorem optional_and_union (fuel : Nat) (t : ETy) (rest : List (Option ETy)) (hw : wfT t = true) (h : depth t ≤ fuel)
+    (hmem : some t ∈ rest) :
+    cmp (fuel + 1) (.optional t) (.union (casesOfList (none :: rest))) = .warn ∧
+    cmp (fuel + 1) (.union (casesOfList (none :: rest))) (.optional t) = .warn :=
+  optional_union_interchange fuel t rest hw h hmem
+
+/-- reordering the cases of a union emits no message: `NoCross` says that cases at different positions do not match
+    one another (the validator rejects unions with duplicate case types) -/
+theorem reordering_union_cases (fuel : Nat) (news olds : List (Option ETy)) (hp : news.Perm olds) (hne : olds ≠ [])
+    (hnd : olds.Nodup) (hnc : NoCross (cmp fuel) olds) (hw : ∀ t, some t ∈ olds → wfT t = true ∧ depth t ≤ fuel) :
+    (cmp (fuel + 1) (.union (casesOfList news)) (.union (casesOfList olds))).sev = .ok := by
+  have hself := cmpCase_self_of_wf fuel olds hw
+  simpa [cmp] using union_cases_reordered (cmp fuel) news olds hp hne hnd hnc hself
+
+/-- the hypothesis is met by a union of an integer, a string and a vector -/
+example : NoCross (cmp 3) [some (.prim .int32), some (.prim .string), some (.vector (.prim .float32) none)] := by
+  intro i j a b hi hj hij
+  match i, j with
+  | 0, 0 | 1, 1 | 2, 2 => exact absurd rfl hij
+  | 0, 1 | 0, 2 | 1, 0 | 1, 2 | 2, 0 | 2, 1 => simp at hi hj; subst hi; subst hj; decide
+  | i + 3, _ => simp at hi
+  | 0, j + 3 | 1, j + 3 | 2, j + 3 => simp at hj
 
 /-- the hypotheses are met: a two-field record gaining an optional vector field, a scalar made optional, a union gaining a case -/
 example : namesDistinct [(10, ETy.prim .int32), (11, .vector (.prim .string) none)] = true ∧
